@@ -1,4 +1,5 @@
 """Check context: evidence, violations, known findings, replays."""
+import fnmatch
 import hashlib
 import json
 import os
@@ -86,7 +87,7 @@ class Ctx:
             if f.get("status") != "known":
                 continue
             fk = f["key"]
-            if fk == key or (fk.endswith("*") and key.startswith(fk[:-1])):
+            if fk == key or ("*" in fk and fnmatch.fnmatchcase(key, fk.replace("[", "[[]"))):
                 if fk not in [h["key"] for h in self.known_hits]:
                     self.known_hits.append(f)
                     print("KNOWN-FINDING: property=%s %s" % (self.pid, f["what"]), flush=True)
